@@ -817,6 +817,7 @@ func (x *Exec) doReturn(st *State, vals []*Term, at ast.Node, implicit bool) {
 				return
 			}
 		}
+		x.cover(st, "cover-return", "return", at)
 		for _, e := range fr.fi.Ensures {
 			g := x.evalSpec(st, e.Expr)
 			x.oblige(st, "post", e.Label, g, at)
@@ -1403,6 +1404,7 @@ func (x *Exec) evalMarker(st *State, call *ast.CallExpr, name string) *Term {
 		return x.eval(tmp, call.Args[0])
 	case "__assert":
 		if x.spec == 0 {
+			x.cover(st, "cover-assert", strLit(call.Args[0], x.info()), call)
 			c := x.evalSpec(st.clone(), closureExpr(call.Args[1]))
 			x.oblige(st, "assert", strLit(call.Args[0], x.info()), c, call)
 			st.assume(c)
